@@ -4,6 +4,7 @@ from z3 import And, If, Implies, Real, RealVal
 
 from ..contracts.eg_predict import PmfPredict as EGPmf
 from ..contracts.eg_predict import Predict as EGPredict
+from ..contracts.eg_predict import ThresholderPredict
 from ..contracts.pmf import PmfPredict
 from ..contracts.to_eo import EqualizedOddsCurves
 from ..contracts.tradeoff import TradeoffPoints
@@ -36,6 +37,8 @@ def items(rep):
             # 'without flip, P(1) never decreases with the score': the flip setting reaches the curve construction, which then emits '>' rules only
             (EqualizedOddsCurves(), [("flip_setting_not_passed_on", verify.replace_expr("_tradeoff_curve(group, sensitive_feature_value, flip=self.flip)", "_tradeoff_curve(group, sensitive_feature_value, flip=True)"))]),
             (TradeoffPoints("false_positive_rate", "true_positive_rate", False), [("flipped_rules_although_flip_is_off", verify.replace_expr("flip", "True", 0))]),
+            (ThresholderPredict(), [("seed_zero_treated_as_no_seed", verify.replace_expr("check_random_state(random_state)", "check_random_state(random_state if random_state else None)")),
+                                    ("strict_comparison_with_the_draw", verify.flip_strictness(0))]),
             (EGPredict(True), [("strict_comparison_with_the_draw", verify.flip_strictness(0))]),
             (EGPmf(True), [("zero_test_by_position", verify.replace_expr("self.weights_[t]", "self.weights_.iloc[t]")),
                            ("mixture_paired_by_position", verify.replace_expr("pred[self.weights_.index]", "pred"))]),
